@@ -97,6 +97,16 @@ def other_cases(rng, thorough):
         out.append("Pf %s i:%s i:%s i:%s" % (fmt([ord(x) for x in "%*.*d"]), fmt(le8(w)), fmt(le8(w - 1)), fmt(le8(-7))))
         out.append("Pf %s i:%s i:%s" % (fmt([ord(x) for x in "%*d"]), fmt(le8(-w)), fmt(le8(7))))
     out.append("Pf %s i:%s" % (fmt([ord(x) for x in "%70000d"]), fmt(le8(5))))
+    # precisions written with leading zeros and with ten and more digit characters (a digit counter instead of a value bound), and
+    # widths of many digit characters after a non-zero first digit
+    for zeros in (1, 2, 8, 9, 10, 11, 15, 30):
+        for pv in (0, 3, 12):
+            for cv in "dxs":
+                f = "%." + "0" * zeros + str(pv) + cv
+                arg = ("s:%s:%d" % (fmt([65 + (i % 26) for i in range(20)]), 1)) if cv == "s" else "i:%s" % fmt(le8(rng.choice([0, 7, 123456, -45])))
+                out.append("Pf %s %s" % (fmt([ord(x) for x in f]), arg))
+            f = "%1" + "0" * 0 + "." + "0" * zeros + "4s"
+            out.append("Pf %s s:%s:0" % (fmt([ord(x) for x in f]), fmt([97, 98, 99, 100])))        # unterminated argument of exactly 4 bytes
     out.append("Pf %s s:%s:1" % (fmt([ord(x) for x in "%.300s"]), fmt([65 + (i % 26) for i in range(700)])))
     for p in [0, 1, 0xdeadbeef, 2 ** 47 - 1, 2 ** 64 - 1, 0x1000, 0xabcdef0123]:
         for f in ["%p", "%20p", "%-20p", "%3p"]:
